@@ -33,6 +33,8 @@ package actionlint
 // string fields and slices that hold lower-cased names
 //@ folded WorkflowCallEventInput.ID
 //@ folded_elems jobNode.needs also C18
+// step ids seen in a job (RuleID) are compared case-insensitively
+//@ folded_keys map[string]*Pos
 
 //@ func (*RuleJobNeeds).VisitJobPre
 //@   loop "range n.Needs":
